@@ -185,6 +185,7 @@ SentMsgs(evs) == [i \in DOMAIN EvsOf(evs, "MessageSent") |-> EvsOf(evs, "Message
 \* a multi-message transaction is judged as a whole: all-or-nothing (C14) and no crash (C20); the
 \* transactions that follow it are judged against the state it left behind
 Applies(p, pre, m, f, o) ==
+  IF m.type = "Simulate" THEN p \in {"C15", "C20"} ELSE      \* a simulated transaction must not change anything
   IF m.type = "Batch" THEN p \in {"C14", "C20"} ELSE
   CASE p = "C01" -> TRUE
     [] p = "C02" -> TRUE
@@ -308,6 +309,7 @@ LensR(p, pre, m, f, o, r) ==
                /\ Len(SentMsgs(o.evs)) = 1
          /\ (res = "ok" /\ IsModuleRecv(m)) => Len(OkCalls(o.calls, "Mint")) = 1
          /\ ((\E i \in DOMAIN f : ~f[i]) /\ ~DontCare(m)) => res = exp.res
+    [] p = "C15" /\ m.type = "Simulate" -> o.post = pre /\ o.junk = {}
     [] p = "C15" ->
          /\ o.junk = {}
          /\ KeysChanged(pre, o.post) \subseteq (IF res = "ok" THEN AllowedWrites(m) ELSE {})
